@@ -452,6 +452,41 @@ func c06FixedFamily(r *Run) {
 		{rec(`"long"`), one(wrapGT("time")), [][]byte{{}, {0}, {0x80}, {0xff, 0xff, 0xff, 0xff, 0xff, 0xff, 0xff, 0xff, 0xff, 0x01}}},
 		{rec(`{"type":"int","logicalType":"date"}`), one(wrapGT("time")), [][]byte{{}, {0}, {0x80}, {0xff, 0xff, 0xff, 0xff, 0x1f}}},
 	}
+	// counts whose product with the item width wraps around 2^64 to something small: whatever is
+	// computed from count x width must not be trusted (arrays of fixed-width items)
+	wrapCounts := func(width uint64, tail []byte) (ins [][]byte) {
+		for _, q := range []uint64{1 << 63, 1 << 62, 1 << 61, 1 << 60} {
+			for _, c := range []uint64{q/width*2 + 1, q / width * 2, q/width + 1, q / width, (1<<63-1)/width + 1} {
+				if c == 0 || c >= 1<<63 {
+					continue
+				}
+				ins = append(ins, append(specVarint(int64(c)), tail...))
+				ins = append(ins, append(append(specVarint(-int64(c)), specVarint(int64(len(tail)))...), tail...)) // the same as a sized block
+			}
+		}
+		return
+	}
+	over := [][]byte{ // overlong and overflowing varints in front of well-formed data: an error, whatever their partial value
+		{0x83, 0x80, 0x80, 0x80, 0x80, 0x80, 0x80, 0x80, 0x80, 0x02, 0x04, 0x0e, 0x10, 0x00},
+		{0x84, 0x80, 0x80, 0x80, 0x80, 0x80, 0x80, 0x80, 0x80, 0x02, 0x04, 0x0e, 0x10, 0x00},
+		{0x83, 0x80, 0x80, 0x80, 0x80, 0x80, 0x80, 0x80, 0x80, 0x80, 0x01, 0x04, 0x0e, 0x10, 0x00},
+		{0x81, 0x80, 0x80, 0x80, 0x80, 0x80, 0x80, 0x80, 0x80, 0x80, 0x80, 0x00, 0x02, 0x0e, 0x00},
+		{0xff, 0xff, 0xff, 0xff, 0xff, 0xff, 0xff, 0xff, 0xff, 0x03, 0x02, 0x0e, 0x00},
+	}
+	fixedSl := func(n int) *GT { return &GT{Kind: "slice", Elem: &GT{Kind: "array", Len: n, Elem: mkGT("uint8")}} }
+	tail16 := []byte{1, 2, 3, 4, 5, 6, 7, 8, 9, 10, 11, 12, 13, 14, 15, 16, 0}
+	fams = append(fams,
+		fam{rec(`{"type":"array","items":"double"}`), one(&GT{Kind: "slice", Elem: mkGT("float64")}), wrapCounts(8, tail16)},
+		fam{rec(`{"type":"array","items":"float"}`), one(&GT{Kind: "slice", Elem: mkGT("float32")}), wrapCounts(4, tail16)},
+		fam{rec(`{"type":"array","items":{"type":"fixed","name":"F4","size":4}}`), one(fixedSl(4)), wrapCounts(4, tail16)},
+		fam{rec(`{"type":"array","items":{"type":"fixed","name":"F16","size":16}}`), one(fixedSl(16)), wrapCounts(16, tail16)},
+		fam{rec(`{"type":"array","items":{"type":"fixed","name":"F3","size":3}}`), one(fixedSl(3)), wrapCounts(3, tail16)},
+		fam{rec(`{"type":"array","items":"long"}`), one(&GT{Kind: "slice", Elem: mkGT("int64")}), over},
+		fam{rec(`{"type":"map","values":"long"}`), one(&GT{Kind: "map", Key: mkGT("string"), Elem: mkGT("int64")}), over},
+		fam{rec(`"string"`), one(mkGT("string")), over},
+		fam{rec(`"bytes"`), one(&GT{Kind: "slice", Elem: mkGT("uint8")}), over},
+		fam{rec(`["null","int","long"]`), one(mkGT("int64")), over},
+	)
 	for _, f := range fams {
 		s, err := avro.SchemaFromString(f.schema)
 		if err != nil {
